@@ -85,12 +85,8 @@ func ngGzip(b []byte) []byte {
 func ngTimed(rd io.Reader, ro ngReadOpts, bound int64) *ngSessionResult {
 	ch := make(chan *ngSessionResult, 1)
 	go func() { ch <- ngSession(rd, ro, bound) }()
-	select {
-	case r := <-ch:
-		return r
-	case <-time.After(30 * time.Second):
-		return nil
-	}
+	r, _ := recvBusyAware(ch, 30*time.Second)
+	return r
 }
 
 // does some block declare more bytes than the stream holds? (the one mechanism by which the
